@@ -55,6 +55,9 @@ SCRIPTS = {
     # many instances (size ladder): L works while M starts 60 more instances
     "L": [("start", None), ("begin-session", bs({"constants": {"k": 7.0}})), ("run-step", None), ("run-step", st({"constants": {"k": 5.0}})), ("run-step", None)],
     "M": [("start", None), ("start-many", 60), ("begin-session", bs(None)), ("run-step", None), ("session-results", None)],
+    # an instance whose whole life (session with settings, session ended, instance stopped) may lie before the other one is even started
+    "P": [("start", None), ("begin-session", bs({"constants": {"k": 7.0}, "points": {"lk": [[0.0, 5.0], [8.0, 5.0]]}})), ("run-step", None), ("end-session", None), ("stop-instance", None)],
+    "Q": [("start", None), ("begin-session", bs(None)), ("run-step", None), ("run-step", None), ("session-results", None)],
     "H": [("start", {"timeout": {"seconds": 5}}), ("begin-session", bs({"constants": {"k": 6.0}, "points": {"lk": [[0.0, 4.0], [8.0, 4.0]]}})), ("advance", 10), ("sweep", None), ("run-step", None)],
 }
 
@@ -201,7 +204,7 @@ def run(ctx):
         for part in core.chunks(list(merges(names, nn)), 8):
             jobs.append((names, nn, part, True))
     # plural start route, many instances; time-out and restore on a server with a state adapter
-    for names, flag in ((("F2", "G2"), False), (("L", "M"), False), (("J", "K"), "adapter"), (("F", "J"), "adapter")):
+    for names, flag in ((("F2", "G2"), False), (("L", "M"), False), (("J", "K"), "adapter"), (("F", "J"), "adapter"), (("P", "Q"), False), (("P", "Q"), True), (("P", "K"), "adapter")):
         for part in core.chunks(list(merges(names, 5)), 8):
             jobs.append((names, 5, part, flag))
     if ctx.tier == "thorough":
